@@ -1403,24 +1403,41 @@ func (prop c01) Execute(sc *sim.Scenario) *sim.Outcome {
 			}
 			return s, !math.IsNaN(s) && !math.IsInf(s, 0)
 		}
-		// moderate magnitudes only: with values in the thousands a trigonometric
-		// or exponential node oscillates / explodes within one difference step
+		// Small, tame programs only. A deep random composition of exp / sinh /
+		// tanh can be flat at every scale above 1e-9 and still have a derivative
+		// of order 1 at the operand (thorough runs produced such programs: the
+		// back-propagated value was right to 10 digits, every difference quotient
+		// with h >= 1e-5 was 0). So: few operations, forward values <= 20, every
+		// node's gradient <= 1e3, |d| >= 1e-3, and six step sizes 1e-3 .. 1e-8
+		// that all have to agree.
+		nops := 0
+		for _, st := range sc.Steps {
+			if sim.IsTensorOp(st.Op) {
+				nops++
+			}
+		}
+		if nops > 14 {
+			finite = false
+		}
 		for _, id := range p.order {
 			for _, v := range sim.Values(main.pool.T[id]) {
-				if math.Abs(v) > 1e3 {
+				if math.Abs(v) > 20 {
 					finite = false
+				}
+			}
+			if g := gotGrad[id]; g != nil {
+				for _, v := range g.vals {
+					if !(math.Abs(v) <= 1e3) {
+						finite = false
+					}
 				}
 			}
 		}
 		if finite && len(dirs) > 0 {
-			// central differences at five step sizes; a judgement is made only
-			// if the sequence has visibly converged (all five agree coarsely, the
-			// three smallest agree finely), which an aliased or kinked difference
-			// quotient does not do at every scale at once
-			hs := []float64{1e-3, 3e-4, 1e-4, 3e-5, 1e-5}
+			hs := []float64{1e-3, 1e-4, 1e-5, 1e-6, 1e-7, 1e-8}
 			ds := make([]float64, len(hs))
-			f0, ok := F(0)
-			noise := 0.0
+			ns := make([]float64, len(hs))
+			_, ok := F(0)
 			for k, h := range hs {
 				a, ok1 := F(h)
 				b, ok2 := F(-h)
@@ -1429,30 +1446,32 @@ func (prop c01) Execute(sc *sim.Scenario) *sim.Outcome {
 					break
 				}
 				ds[k] = (a - b) / (2 * h)
-				if n := 1e-9 * (math.Abs(f0) + math.Abs(a) + math.Abs(b)) / h; n > noise {
-					noise = n
-				}
+				ns[k] = 4e-16 * (math.Abs(a) + math.Abs(b) + 1) * float64(nops+4) / h // rounding of the quotient itself
 			}
 			if ok {
-				d := ds[len(ds)-2]
-				coarse, fine := 0.0, 0.0
+				d := ds[3]
+				agree := true
+				spread := 0.0
 				for k := range ds {
-					if e := math.Abs(ds[k] - d); e > coarse {
-						coarse = e
-					}
+					e := math.Abs(ds[k] - d)
+					lim := 1e-2 * math.Abs(d)
 					if k >= 2 {
-						if e := math.Abs(ds[k] - d); e > fine {
-							fine = e
-						}
+						lim = 1e-4*math.Abs(d) + ns[k] + ns[3]
+					}
+					if e > lim {
+						agree = false
+					}
+					if k >= 2 && e > spread {
+						spread = e
 					}
 				}
 				switch {
 				case crossed:
 					out.Probes["directional-fd-crossed-a-kink"]++
-				case math.Abs(d) < 1e-6 || coarse > 1e-2*math.Abs(d)+noise || fine > 1e-4*math.Abs(d)+noise:
+				case math.Abs(d) < 1e-3 || !agree:
 					out.Probes["directional-fd-inconclusive"]++
-				case math.Abs(d-gv) > 50*fine+1e-4*math.Abs(d)+10*noise+1e-11*gabs:
-					out.Fail("directional-fd", "the derivative of the summed roots along a random +-1 direction over all tracked leaves is %v by central differences (five step sizes 1e-3..1e-5 agree to %v), but the back-propagated gradients give %v", d, coarse, gv)
+				case math.Abs(d-gv) > 20*spread+1e-3*math.Abs(d)+1e-11*gabs:
+					out.Fail("directional-fd", "the derivative of the summed roots along a random +-1 direction over all tracked leaves is %v by central differences (six step sizes 1e-3..1e-8 agree to %v), but the back-propagated gradients give %v", d, spread, gv)
 					return fin()
 				default:
 					out.Probes["directional-fd-checked"]++
